@@ -512,8 +512,57 @@ def sessions_objects(args):
     return acc.export()
 
 
+def sessions_long(args):
+    """One window, hundreds of renders in a row (arrays cycling through the small menu with a stride, cursor moving, a resize with
+    junk every 37th step): anything that counts renders or ages a cache meets its threshold."""
+    tier, seed, hide, stride = args
+    acc = Acc(seed=seed, sample_stride=499)
+    world = World(hide)
+    n = 1200 if tier == "thorough" else 400
+    sizes = [(2, 3), (3, 2), (2, 24), (3, 4)]
+    si = 0
+    h, w = sizes[si]
+    world.initial(h, w)
+    term = world.proxy.term
+    pool = {}
+    for sz in sizes:
+        if sz[1] >= 24:
+            wp = wide_pool(sz[1])
+            pool[sz] = [()] + [tuple(wp[(i + j * 5) % len(wp)] for j in range(nr)) for nr in range(1, sz[0] + 1) for i in range(len(wp))]
+        else:
+            pool[sz] = list(arrays_for(sz[0], sz[1], "full" if sz[1] <= 3 else "sharp"))
+    hist = []
+    for k in range(n):
+        if k and k % 37 == 0:
+            si = (si + 1) % len(sizes)
+            h, w = sizes[si]
+            term.resize(h, w, "fill" if (k // 37) % 2 else "keep")
+            world.proxy.set_size(h, w)
+            hist.append(["resize", h, w])
+        arrs = pool[(h, w)]
+        arr = arrs[(k * stride) % len(arrs)]
+        cur = (min(h - 1, k % 2), min(w - 1, k % 3))
+        term.scrolls = 0
+        sb = len(term.scrollback)
+        case = {"hide_cursor": hide, "size": [h, w], "session": "long", "step": k, "stride": stride, "last_steps": hist[-3:], "render": show_arr(arr), "cursor": list(cur)}
+        acc.case(True, key=("long", hide, stride, k), sample=case)
+        acc.transitions += 1
+        try:
+            world.win.render_to_terminal(build_array(arr), cur)
+        except Exception as ex:  # noqa
+            acc.failure("C02:render_raises:" + type(ex).__name__, case, repr(ex))
+            break
+        if not check_screen(acc, term, arr, cur, hide, case, sb):
+            break
+        hist.append(["render", show_arr(arr), list(cur)])
+    world.proxy.close()
+    return acc.export()
+
+
 def run(ctx):
     rep = Report()
+    for d in ctx.pmap(sessions_long, [(ctx.tier, ctx.seed, hide, stride) for hide in (True, False) for stride in (1, 7, 11, 13)]):
+        rep.merge(d, "one_window_hundreds_of_renders")
     wide = [(ctx.tier, ctx.seed, hide, h, w, p, 8) for hide in (True, False) for (h, w) in ((2, 24), (3, 31)) for p in range(8)]
     for d in ctx.pmap(sessions_wide, wide):
         rep.merge(d, "wide_terminals_pairs_of_renders")
